@@ -56,6 +56,13 @@ fn observe_all(c: &mut Case, b: &BitVec<Vec<usize>>, m: &[bool], trace: &dyn Fn(
     c.check("iter_zeros", got == zeros, || {
         format!("iter_zeros got {} model {}; {}", trunc(&format!("{:?}", got), 300), trunc(&format!("{:?}", zeros), 300), trace())
     });
+    // the iterators through the skipping adaptors of Iterator (nth, skip, step_by, ...)
+    if m.len() <= 5000 && c.rng().random_range(0..3u32) == 0 {
+        c.iter_protocol("iter_adaptors", || b.iter(), m, trace);
+        c.iter_protocol("into_iter_adaptors", || b.into_iter(), m, trace);
+        c.iter_protocol("iter_ones_adaptors", || b.iter_ones(), &ones, trace);
+        c.iter_protocol("iter_zeros_adaptors", || b.iter_zeros(), &zeros, trace);
+    }
 }
 
 fn check_eq_ops(c: &mut Case, b: &BitVec<Vec<usize>>, m: &[bool], trace: &dyn Fn() -> String) {
